@@ -105,6 +105,9 @@ type c02op struct {
 	Forks  int
 	Script []int
 	Items  []hlsim.UploadItem
+	// folderup: what an earlier upload of the same folder left behind (-1: no partial b.bin)
+	PartialB  int
+	CompleteA bool
 }
 
 type c02session struct {
@@ -191,6 +194,13 @@ func c02genSession(rt *rapid.T) c02session {
 				{Path: [][]byte{[]byte("b.bin")}, Data: genBytes(rt, fmt.Sprintf("op%d_b", i), rapid.IntRange(0, 40000).Draw(rt, fmt.Sprintf("op%d_blen", i)))},
 			}
 			op.Trans = []hlref.Tran{{Type: hlref.TranUploadFldr, ID: nextID(), Fields: []hlref.Field{sfld(hlref.FFileName, op.Name), fld(hlref.FTransferSize, hlref.BE32(50000)), fld(hlref.FFolderItemCount, hlref.BE16(3))}}}
+			// leftovers of an earlier, interrupted upload of the same folder: a partial b.bin (the server asks to resume it)
+			// and / or a complete sub/a.txt (the server skips it)
+			op.PartialB = -1
+			if rapid.Bool().Draw(rt, fmt.Sprintf("op%d_leftover", i)) {
+				op.PartialB = rapid.IntRange(0, len(op.Items[2].Data)).Draw(rt, fmt.Sprintf("op%d_partial", i))
+				op.CompleteA = rapid.Bool().Draw(rt, fmt.Sprintf("op%d_completeA", i))
+			}
 		}
 		s.Ops = append(s.Ops, op)
 	}
@@ -266,6 +276,15 @@ func c02run(rt *rapid.T, s c02session, mk func(kind string) hlsim.Splitter) (o c
 		Accounts: []hlsim.AccountSpec{acct("admin", "Admin", "adminpw", allAccess), acct("obs", "Obs", "obspw", allAccess)}}
 	inWorld(rt, opt, func(rt *rapid.T, w *hlsim.World) {
 		c02fixture(w)
+		for _, op := range s.Ops {
+			if op.Kind == "folderup" && op.PartialB >= 0 {
+				must(os.MkdirAll(filepath.Join(w.FileRoot, op.Name, "sub"), 0o755))
+				must(os.WriteFile(filepath.Join(w.FileRoot, op.Name, "b.bin.incomplete"), op.Items[2].Data[:op.PartialB], 0o644))
+				if op.CompleteA {
+					must(os.WriteFile(filepath.Join(w.FileRoot, op.Name, "sub", "a.txt"), op.Items[1].Data, 0o644))
+				}
+			}
+		}
 		obs := loginAs(rt, w, "10.0.0.9:1", "obs", "obspw", "obs")
 		obs.TakeInbox()
 		w.NewSplit = mk
